@@ -215,6 +215,17 @@ Definition run_top (g : prog) (std_rt : option pkgid) (t : top) (st : state * li
 Definition run_entry (g : prog) (std_rt : option pkgid) (py rt abi : bool) (main : pkgid) : list tev :=
   snd (fold_left (fun st t => run_top g std_rt t st) (entry_code py rt abi main) (st0, [])).
 
+(* what a package body observes of the state the std runtime's init establishes:
+   true when the runtime package r has run its body before package p starts.
+   [before_b a b l]: a occurs in l and b does not occur before it *)
+Fixpoint before_b (a b : event) (l : list event) : bool :=
+  match l with
+  | [] => false
+  | x :: r => if event_eqb x a then true else if event_eqb x b then false else before_b a b r
+  end.
+Definition rt_ready (g : prog) (r main : pkgid) (obs : list pkgid) : list bool :=
+  let tr := exec g [r; main] in map (fun p => before_b (EMain r) (EMain p) tr) obs.
+
 (* ---------- order inside one package (Go spec, Package initialization) ---------- *)
 
 (* variables are numbered in declaration order (files in the order presented to
@@ -265,31 +276,45 @@ Definition predict (g : prog) (roots : list pkgid) (bodies : list pbody) : list 
 
 (* sorted: all package ids sorted by import path.  In each step the first
    package in the list that is not initialised and whose imports all are is
-   initialised.  (llgo does not implement this order; it is used to validate the
-   reference trace only.) *)
-Fixpoint pick_pkg (g : prog) (done : list pkgid) (l : list pkgid) : option (pkgid * list pkgid) :=
+   initialised.  The reference toolchain runs this over init TASKS: a package
+   has one iff it has initialisation work of its own ([work]) or imports a
+   package that has one; a package without task (functions, types, constants
+   only, all the way down) does not take part, which can let an importer of
+   such a package run earlier than the rule applied to all packages would.
+   (llgo does not implement this order; it is used to validate the reference
+   trace only.) *)
+Fixpoint tasks_aux (work acc : list bool) (i : nat) (rest : prog) : list bool :=
+  match rest with
+  | [] => acc
+  | pk :: r => tasks_aux work (acc ++ [nth i work false || existsb (fun q => nth q acc false) (pk_imps pk)]) (S i) r
+  end.
+Definition tasks (g : prog) (work : list bool) : list bool := tasks_aux work [] 0 g.
+
+Fixpoint pick_pkg (g : prog) (t : list bool) (done : list pkgid) (l : list pkgid) : option (pkgid * list pkgid) :=
   match l with
   | [] => None
   | p :: r =>
-      if forallb (fun q => memN q done) (match nth_error g p with Some pk => pk_imps pk | None => [] end)
+      if forallb (fun q => negb (nth q t false) || memN q done) (match nth_error g p with Some pk => pk_imps pk | None => [] end)
       then Some (p, r)
-      else match pick_pkg g done r with
+      else match pick_pkg g t done r with
            | Some (w, r') => Some (w, p :: r')
            | None => None
            end
   end.
 
-Fixpoint go121_order (g : prog) (fuel : nat) (done : list pkgid) (l : list pkgid) : list pkgid :=
+Fixpoint go121_order (g : prog) (t : list bool) (fuel : nat) (done : list pkgid) (l : list pkgid) : list pkgid :=
   match fuel with
   | O => []
-  | S n => match pick_pkg g done l with
-           | Some (p, r) => p :: go121_order g n (p :: done) r
+  | S n => match pick_pkg g t done l with
+           | Some (p, r) => p :: go121_order g t n (p :: done) r
            | None => []
            end
   end.
 
-Definition predict_go (g : prog) (sorted : list pkgid) (bodies : list pbody) : list (nat * nat) :=
-  expand bodies (map EMain (go121_order g (length sorted) [] sorted)).
+Definition predict_go (g : prog) (work : list bool) (sorted : list pkgid) (bodies : list pbody) : list (nat * nat) :=
+  let t := tasks g work in
+  let l := filter (fun p => nth p t false) sorted in
+  expand bodies (map EMain (go121_order g t (length l) [] l)).
 
 (* ---------- comparison helpers for the harness ---------- *)
 
